@@ -26,6 +26,7 @@ TEXT = {'design_ref': 'DESIGN.md section 4, C07',
          'session is still attached and its PING is answered in the next step.  Bounded wall-clock time and absence of crashes are runtime facts: every 4th '
          'generated case sends arbitrary structurally valid Messages (whole PR_COMMAND range +-2, reserved field names with right and wrong types, malformed '
          'patterns, hostile filter archives, JETTISON* while results are queued for a client that does not read, cuts) and pings from a witness session after '
-         'every op under a 20 s alarm, ASan and UBSan.',
+         "every op under a 20 s alarm, ASan and UBSan. Every command, push, arrival and departure of another session only APPENDS to every other session's "
+         'queue of results (`inbox_append_only*`, also over histories): what a victim has been sent can not be taken back or reordered by anybody else.',
  'note': 'Partial by nature: time bounds, stack depth, libc regcomp cost and memory safety of the binary are observed, not proved.  The model covers the '
          'command subset of Engines/Srv.lean.'}
